@@ -47,6 +47,13 @@ func (k Keeper) ApplyAndReturnValidatorSetUpdates(ctx context.Context) ([]abci.V
 
 		// zero power validator removed from validator set
 		if newPower <= 0 {
+			// a validator that was never bonded (added and removed within the same block) is not
+			// known to the consensus engine; drop its record now, nobody else will
+			if !found {
+				if err := k.RemoveValidator(ctx, valAddr); err != nil {
+					return nil, err
+				}
+			}
 			continue
 		}
 
